@@ -141,6 +141,19 @@ static std::string checked_extent()
   if (vsbx::g_n_same_sbx == 0) return "none";
   return std::to_string((long long)(vsbx::g_last_same_sbx[1] - vsbx::g_last_same_sbx[0]) + 1);
 }
+// Where do the delivered bytes come from?  Meaningful only when the adversary changes no datum (actions none / nullcell /
+// retarget).  S = start of the FIRST extent rlbox range-checked during the call.  If S is not the initial target, the pointer
+// cell was retargeted before anything was checked, so every checked fetch designates the new target and the bytes delivered
+// must be the new target's: "chk".  Bytes of the OLD target then were copied through an address fetched before the check
+// and never range-checked: "OTHER".  If S is the initial target, a later retarget may legitimately yield either/mixed: "initial".
+static std::string came_from(const void* got, size_t n, uint32_t initial)
+{
+  if (vsbx::g_n_same_sbx == 0) return "none";
+  uintptr_t st = vsbx::g_first_same_sbx[0];
+  if (st < g_base || st + n > g_base + RSIZE) return "outside";
+  if (std::memcmp(got, reinterpret_cast<const void*>(st), n) == 0) return "chk";
+  return st == g_base + initial ? "initial" : "OTHER";
+}
 static std::string show_off(const void* p)
 {
   auto a = reinterpret_cast<uintptr_t>(p);
@@ -241,6 +254,7 @@ static std::string run_variant(const std::string& variant, const std::string& sr
         g_track_new = false; disarm();
         if (!a) return "null";
         std::string s = "a="; for (int i = 0; i < N_ARR; i++) s += (i ? "," : "") + std::to_string(a[i]);
+        s += " from=" + came_from(a.get(), N_ARR * sizeof(int), ARR);
         return s + " size=" + std::to_string(g_last_new_ptr == (char*)a.get() ? g_last_new_size : 0) + " where=" + where(a.get()) + " after=" + after(a.get(), N_ARR * sizeof(int));
       }, N_ARR);
     });
@@ -255,7 +269,8 @@ static std::string run_variant(const std::string& variant, const std::string& sr
         if (size == 0) return "untracked";
         const void* z = std::memchr(s.get(), 0, size);
         long nul = z ? (long)(static_cast<const char*>(z) - s.get()) : -1;
-        return "s=" + hex(s.get(), size) + " size=" + std::to_string(size) + " nul=" + std::to_string(nul) + " chk=" + checked_extent() + " where=" + where(s.get()) + " after=" + after(s.get(), size);
+        std::string from = came_from(s.get(), nul >= 0 ? (size_t)nul : size, STR);
+        return "s=" + hex(s.get(), size) + " from=" + from + " size=" + std::to_string(size) + " nul=" + std::to_string(nul) + " chk=" + checked_extent() + " where=" + where(s.get()) + " after=" + after(s.get(), size);
       });
     });
   }
@@ -263,7 +278,8 @@ static std::string run_variant(const std::string& variant, const std::string& sr
     return with_src<char>(src, STR, [&](auto& p) {
       return p.copy_and_verify_string([&](std::string s) -> std::string {
         disarm();
-        return "s=" + hex(s.data(), s.size()) + " size=" + std::to_string(s.size()) + " chk=" + checked_extent() + " where=" + where(s.data()) + " after=" + after(s.data(), s.size());
+        std::string from = came_from(s.data(), s.size(), STR);
+        return "s=" + hex(s.data(), s.size()) + " from=" + from + " size=" + std::to_string(s.size()) + " chk=" + checked_extent() + " where=" + where(s.data()) + " after=" + after(s.data(), s.size());
       });
     });
   }
